@@ -115,5 +115,8 @@ func RewriteClause(decls map[ast.PredicateSym]*ast.Decl, clause ast.Clause) ast.
 			}
 		}
 	}
+	// Negated atoms whose variables never got bound are kept (at the end), so that
+	// the rule check rejects the clause instead of the subgoal being silently dropped.
+	premises = append(premises, delayNegAtom...)
 	return ast.Clause{Head: clause.Head, HeadTime: clause.HeadTime, Premises: premises, Transform: clause.Transform}
 }
